@@ -2,6 +2,9 @@
   C04 — identities that match no recipient never obtain plaintext.
 -/
 import Proofs.FileDecrypt
+import Proofs.ScryptEquiv
+import Proofs.ScryptNul
+import AgeModel.Exec.FileExec
 namespace AgeModel
 namespace Props.C04
 open Format Stream
@@ -109,6 +112,83 @@ theorem wrong_key_incorrect (P : Prims) (sk : Bytes) (s : Stanza)
   obtain ⟨pk, shared, _, hs, ho⟩ := wrong_key_reduction P sk s k h
   rw [hideal pk shared hs] at ho
   simp at ho
+
+/-- **Reduction form for a wrong passphrase.** A passphrase identity answers a stanza
+    with a key ONLY IF the AEAD opened the body under the key scrypt derives from
+    THIS passphrase and the stanza's salt and work factor. -/
+theorem wrong_passphrase_reduction (P : Prims) (pw : Bytes) (m : Nat) (s : Stanza) (k : Bytes)
+    (h : (unwrapScrypt P pw m s).1 = .key k) :
+    ∃ salt logN, s.args.length = 2 ∧ logN ≤ m ∧ salt.length = scryptSaltSize ∧
+      P.wrapOpen (P.scrypt pw (scryptLabel ++ salt) logN) s.body = some k := by
+  unfold unwrapScrypt at h
+  split at h
+  · simp at h
+  · split at h
+    · rename_i a w hargs
+      split at h
+      · simp at h
+      · rename_i salt hd
+        split at h
+        · simp at h
+        · rename_i hsl
+          split at h
+          · simp at h
+          · rename_i logN hw
+            split at h
+            · simp at h
+            · rename_i hle
+              simp only at h
+              unfold aeadDecryptSized at h
+              split at h
+              · simp at h
+              · split at h
+                · rename_i k' ho
+                  simp only [UnwrapResult.key.injEq] at h
+                  subst h
+                  exact ⟨salt, logN, by rw [hargs]; rfl, by omega, by simpa using hsl, ho⟩
+                · simp at h
+    · simp at h
+
+/-- under the idealisation "the honest body does not open under any key this other
+    passphrase derives", the wrong passphrase never yields a key -/
+theorem wrong_passphrase_incorrect (P : Prims) (pw : Bytes) (m : Nat) (s : Stanza)
+    (hideal : ∀ salt logN, P.wrapOpen (P.scrypt pw (scryptLabel ++ salt) logN) s.body = none) :
+    ∀ k, (unwrapScrypt P pw m s).1 ≠ .key k := by
+  intro k h
+  obtain ⟨salt, logN, _, _, _, ho⟩ := wrong_passphrase_reduction P pw m s k h
+  rw [hideal salt logN] at ho
+  simp at ho
+
+/-! ## Known finding K1 — the idealisation above is FALSE for one family of
+    "other passphrases": scrypt takes the passphrase only as an HMAC-SHA-256 key
+    (PBKDF2), and HMAC pads a key shorter than its 64-byte block with zero bytes.
+    A passphrase and the same passphrase followed by NUL bytes are therefore the
+    same identity: whatever file one opens, the other opens.  Proved here for the
+    concrete key derivation the reference implementation runs (tested against
+    x/crypto/scrypt on every setup); replayed against age.Decrypt by the C04 suite
+    (kind `passphrase-nul-suffix`), listed in known_findings.json. -/
+
+theorem finding_K1_same_kdf (pw : Bytes) (h : pw.length < 64) :
+    ∀ salt n, Exec.File.concrete.scrypt (pw ++ [0]) salt n = Exec.File.concrete.scrypt pw salt n := by
+  intro salt n
+  exact Crypto.scrypt_nul_suffix pw salt n 8 1 32 h
+
+/-- for every file and every position in every identity list, the NUL-suffixed
+    passphrase behaves exactly as the passphrase itself: same reader, same plaintext,
+    same error, same number of identities consulted -/
+theorem finding_K1_nul_suffix_passphrase (pw : Bytes) (h : pw.length < 64) (m : Nat)
+    (pre post : List Identity) (file : Bytes) :
+    decryptInit Exec.File.concrete (pre ++ Identity.scrypt (pw ++ [0]) m :: post) file =
+      decryptInit Exec.File.concrete (pre ++ Identity.scrypt pw m :: post) file := by
+  apply decryptInit_congr
+  have hrefl : ∀ l : List Identity, SameIds Exec.File.concrete l l := by
+    intro l
+    induction l with
+    | nil => exact .nil
+    | cons i is ih => exact .cons (fun _ => rfl) ih
+  induction pre with
+  | nil => exact .cons (scryptIdentity_same _ pw (pw ++ [0]) m (finding_K1_same_kdf pw h)) (hrefl post)
+  | cons i is ih => exact .cons (fun _ => rfl) ih
 
 /-- an SSH identity whose tag differs from the stanza's answers "incorrect identity" -/
 theorem ssh_other_tag_incorrect (P : Prims) (w k : Bytes) (s : Stanza) (tag : Bytes)
